@@ -14,15 +14,16 @@ RULE = ('cases = role name X (1-6 abstract letters: ASCII letters, digits, punct
         'without the keys (string and non-string scalar values) x credentials with 0-6 roles (duplicates, case variants), '
         'an empty list, or no roles entry x the check alone, under not, or inside a random expression with other role '
         'checks. Non-trivial = the reference allows for some role of the credentials AND X is spelled in a different '
-        'case than the matching role, or denies although a role shares a prefix with X; distinct = distinct (rule, target, creds). Credentials are passed as a dict, a RequestContext or its policy-values mapping. Stratum `list-form`: list-of-lists rules whose role names contain spaces / parentheses. Stratum `overlap`: two requests evaluate the same rule at the same time (every single pre-emption of one by the other, deterministic scheduler). Stratum `sequence`: one credentials object whose roles list is mutated in place (append, remove, item assignment, clear) between consecutive calls.')
+        'case than the matching role, or denies although a role shares a prefix with X; distinct = distinct (rule, target, creds). Credentials are passed as a dict, a RequestContext or its policy-values mapping. Stratum `list-form`: list-of-lists rules whose role names contain spaces / parentheses. Stratum `overlap`: two requests evaluate the same rule at the same time (every single pre-emption of one by the other, deterministic scheduler). Stratum `sequence`: one credentials object whose roles list is mutated in place (append, remove, item assignment, clear) between consecutive calls. Stratum `case-keys`: 2-3 `%(key)s` placeholder keys that differ only in letter case (each present in the target with its own value or absent), in %(k)s / prefix%(k)s / %(k1)s%(k2)s form, plus literal role names that differ only in letter case, parsed one after the other in the same process, side by side as rules of one rule set, and together in one random expression; every decision is compared with the abstract-letter reference in which a target key is the exact string (another case = another key).')
 ASSUMPTIONS = ['letters with context-dependent or one-to-many case mappings are excluded, as the quantifier says',
                'a stray % outside %(key)s is excluded (statement is about %(key)s placeholders)',
-               'credentials roles are a list of strings']
+               'credentials roles are a list of strings',
+               'target keys are exact strings: a placeholder key spelled in another letter case references another key (stratum case-keys)']
 LEVEL_TEXT = ('Seeded sampling of the (role name, form, target, credentials, context) space with an oracle that is '
               'independent of any case-folding routine; the space is infinite, so sampling with a structured generator is the level.')
 LEVEL_NOTE = 'trusted: the letter table is verified at start-up to be one-to-one under str.lower/str.upper'
 PLAN = {'quick': dict(shards=4, wall=60), 'thorough': dict(shards=16, wall=400)}
-MIN = {'evaluations': 5000, 'allow_decisions': 500, 'deny_decisions': 500, 'case_variant_matches': 100, 'sequence_decisions': 1000, 'non_dict_credentials': 1000, 'list_form_role_names': 200, 'overlapping_evaluations': 100}
+MIN = {'evaluations': 5000, 'allow_decisions': 500, 'deny_decisions': 500, 'case_variant_matches': 100, 'sequence_decisions': 1000, 'non_dict_credentials': 1000, 'list_form_role_names': 200, 'overlapping_evaluations': 100, 'case_variant_key_decisions': 5000, 'case_variant_keys_told_apart': 500}
 ANCHORS = ['oslo_policy._checks:RoleCheck.__call__', 'oslo_policy.policy:Enforcer.enforce']
 REQUIRED_ANCHORS = ['oslo_policy.policy:Enforcer.enforce']
 N = {'quick': 100000, 'thorough': 3000000}
@@ -240,19 +241,23 @@ def replay_sequence(ctx, real, case):
             return
 
 
-def check_list_form(ctx, real, rnd):
-    """List-of-lists rules are not tokenised: there a role name may contain spaces and parentheses."""
+def check_list_form(ctx, real, rnd, fixed=None):
+    """List-of-lists rules are not tokenised: there a role name may contain spaces and parentheses.  `fixed`: the case of a
+    replay file."""
     policy, enf = real
-    base = mk_name(rnd)
-    deco = rnd.choice(['%s(EU)', 'Team %s', '%s )', '(%s)', '%s  x', '%s)', ' %s'])
-    def name(ids):
-        return deco % spell(rnd, ids)
-    held = rnd.random() < 0.6
-    other = mk_name(rnd)
-    rule = [['role:' + name(base)]] if rnd.random() < 0.5 else ['role:' + name(base)]
-    roles = [name(base)] if held else [name(other)]
-    if other == base and not held:
-        return
+    if fixed is not None:
+        rule, roles, held = fixed['rule'], fixed['roles'], fixed['want']
+    else:
+        base = mk_name(rnd)
+        deco = rnd.choice(['%s(EU)', 'Team %s', '%s )', '(%s)', '%s  x', '%s)', ' %s'])
+        def name(ids):
+            return deco % spell(rnd, ids)
+        held = rnd.random() < 0.6
+        other = mk_name(rnd)
+        rule = [['role:' + name(base)]] if rnd.random() < 0.5 else ['role:' + name(base)]
+        roles = [name(base)] if held else [name(other)]
+        if other == base and not held:
+            return
     ctx.case(['list-form', rule, roles], nontrivial=True, stratum='list-form')
     ctx.count('list_form_role_names')
     try:
@@ -265,18 +270,22 @@ def check_list_form(ctx, real, rnd):
                       {'rule': rule, 'roles': roles, 'expected': held, 'observed': got})
 
 
-def check_overlap(ctx, real, rnd):
+def check_overlap(ctx, real, rnd, fixed=None):
     """Two requests evaluate the SAME rule (shared check objects) at the same time with different targets: each must be
-    decided as if it ran alone.  Every single pre-emption of one by the other is executed."""
+    decided as if it ran alone.  Every single pre-emption of one by the other is executed.  `fixed`: the case of a replay file."""
     from pv.mon import sched
     policy, enf = real
-    a, b = mk_name(rnd), mk_name(rnd)
-    if a == b:
-        return
-    rule = rnd.choice(['role:%(k)s', 'not role:%(k)s', 'role:%(k)s and @', 'role:x%(k)s or role:%(k)s'])
+    if fixed is None:
+        a, b = mk_name(rnd), mk_name(rnd)
+        if a == b:
+            return
+        rule = rnd.choice(['role:%(k)s', 'not role:%(k)s', 'role:%(k)s and @', 'role:x%(k)s or role:%(k)s'])
+        ta, tb = {'k': spell(rnd, a)}, {'k': spell(rnd, b)}
+        roles = [spell(rnd, a)]                                               # both requests hold role a only
+    else:
+        rule, ta, tb, roles = fixed['rule'], fixed['ta'], fixed['tb'], fixed['roles']
     enf.set_rules(policy.Rules.from_dict({'p': rule}))
-    ta, tb = {'k': spell(rnd, a)}, {'k': spell(rnd, b)}
-    ca, cb = {'roles': [spell(rnd, a)]}, {'roles': [spell(rnd, a)]}       # both hold role a only
+    ca, cb = {'roles': list(roles)}, {'roles': list(roles)}
     def mk(t, c):
         return lambda: (lambda: bool(enf.enforce('p', dict(t), {'roles': list(c['roles'])})))
     ref = None
@@ -293,7 +302,125 @@ def check_overlap(ctx, real, rnd):
     ctx.case(['overlap', rule, ta, tb], nontrivial=True, stratum='overlap')
 
 
+KEYCH = list('_0123456789-.')
+
+
+def mk_key(rnd):
+    """Abstract letters of a placeholder key: starts with a cased letter, so at least two spellings exist."""
+    ids = [('L', rnd.randrange(len(PAIRS)))]
+    for _ in range(rnd.randint(1, 5)):
+        ids.append(('L', rnd.randrange(len(PAIRS))) if rnd.random() < 0.7 else ('N', rnd.choice(KEYCH)))
+    return tuple(ids)
+
+
+def classify(got, want, creds):
+    if isinstance(got, str):
+        return 'role-check-raises'
+    if 'roles' not in creds or not creds['roles']:
+        return 'no-roles-not-denied'
+    return 'held-role-denied' if want else 'unheld-role-allowed'
+
+
+def run_case_keys(ctx, real, case):
+    """Execute the steps of a case-keys case in order (each step = one rule set installed, every rule of it decided
+    for the case's target and credentials).  Returns False after reporting the first mismatch."""
+    policy, enf = real
+    for step in case['steps']:
+        enf.set_rules(policy.Rules.from_dict(dict(step['rules'])))
+        for name in sorted(step['rules']):
+            want = step['want'][name]
+            try:
+                creds = {k: (list(v) if isinstance(v, list) else v) for k, v in case['creds'].items()}
+                got = bool(enf.enforce(name, dict(case['target']), creds))
+            except Exception as e:
+                got = 'EXC:' + type(e).__name__
+            ctx.count('case_variant_key_decisions')
+            ctx.count('allow_decisions' if got is True else 'deny_decisions' if got is False else 'exceptions')
+            if got != want:
+                ctx.violation(classify(got, want, case['creds']), case,
+                              {'layout': step['layout'], 'rule': step['rules'][name], 'rules_installed': step['rules'],
+                               'target': case['target'], 'creds': case['creds'], 'expected': want, 'observed': got,
+                               'history': 'steps of this case up to and including this one, in one process'})
+                return False
+    return True
+
+
+def check_case_keys(ctx, real, rnd):
+    """Placeholder keys (and literal role names) that differ ONLY in letter case.  A target key is an exact string, so
+    %(Kx)s and %(kx)s reference different keys: each leaf is decided from its own key (absent -> deny), while role NAMES
+    compare ignoring case.  The leaves are parsed one after the other in the same process, side by side in one rule
+    set, and together in one expression."""
+    pool = [mk_name(rnd) for _ in range(3)]
+    kids = mk_key(rnd)
+    keys = []
+    for _ in range(12):
+        s = spell(rnd, kids)
+        if s not in keys:
+            keys.append(s)
+        if len(keys) == 3:
+            break
+    if len(keys) < 2:
+        return
+    target, val = {}, {}
+    for k in keys:
+        if rnd.random() < 0.3:
+            val[k] = None                         # this spelling of the key is absent from the target
+        else:
+            val[k] = rnd.choice(pool)
+            target[k] = spell(rnd, val[k])
+    leaves = []                                   # (text of X, abstract ids of X or None when a referenced key is missing)
+    for k in keys:
+        if rnd.random() < 0.7:
+            leaves.append(('%%(%s)s' % k, val[k]))
+        else:
+            p = rnd.choice(pool)
+            leaves.append((spell(rnd, p) + '%%(%s)s' % k, None if val[k] is None else p + val[k]))
+    nph = len(leaves)
+    if rnd.random() < 0.4:                        # both spellings inside one X
+        k1, k2 = rnd.sample(keys, 2)
+        leaves.append(('%%(%s)s%%(%s)s' % (k1, k2), None if val[k1] is None or val[k2] is None else val[k1] + val[k2]))
+    if rnd.random() < 0.5:                        # literal role names that differ only in letter case: the same X
+        x = rnd.choice(pool)
+        for _ in range(2):
+            leaves.append((spell(rnd, x), x))
+    mode = rnd.random()
+    roles = None
+    if mode < 0.08:
+        creds = {}
+    elif mode < 0.16:
+        roles, creds = [], {'roles': []}
+    else:
+        cands = pool + [ids for _, ids in leaves if ids]
+        roles = [rnd.choice(cands) for _ in range(rnd.randint(1, 3))]
+        creds = {'roles': [spell(rnd, r) for r in roles]}
+    truth = [ids is not None and roles is not None and any(r == ids for r in roles) for _, ids in leaves]
+    texts = ['role:' + t for t, _ in leaves]
+    steps = []
+    order = list(range(len(leaves)))
+    rnd.shuffle(order)
+    for i in order:
+        steps.append(dict(layout='one-after-the-other', rules={'p': texts[i]}, want={'p': truth[i]}))
+    steps.append(dict(layout='side-by-side-in-one-rule-set', rules={'p%d' % i: texts[i] for i in range(len(leaves))},
+                      want={'p%d' % i: truth[i] for i in range(len(leaves))}))
+    ast = expr.random_ast(rnd, 2, len(leaves), p_const=0.05)
+    steps.append(dict(layout='one-expression', rules={'p': expr.spell(expr.to_tokens(ast, lambda i: texts[i]))},
+                      want={'p': expr.ev(ast, truth)}))
+    # which layout comes first decides which spelling is parsed first in this process
+    head = steps[:len(order)]
+    tail = steps[len(order):]
+    r = rnd.random()
+    steps = head + tail if r < 0.5 else tail + head if r < 0.75 else [tail[1]] + head + [tail[0]]
+    case = dict(case_keys=True, target=target, creds=creds, steps=steps)
+    present = [val[k] for k in keys]
+    if len(set(truth[:nph])) > 1 or (any(v is None for v in present) and any(v is not None for v in present)) \
+            or len(set(v for v in present if v is not None)) > 1:
+        ctx.count('case_variant_keys_told_apart')
+    if run_case_keys(ctx, real, case):
+        ctx.case(['case-keys', target, creds, [s['rules'] for s in steps]], nontrivial=True, stratum='case-keys')
+
+
 def run(ctx):
+    ctx.reserve(0.8)          # the strata that come last (overlapping operations) keep a fifth of the wall budget
     self_check()
     from oslo_policy import policy
     enf = policy.Enforcer(env.fresh_conf(), use_conf=False)
@@ -309,7 +436,10 @@ def run(ctx):
             check_sequence(ctx, (policy, enf), ctx.rnd)
         if i % 50 == 0:
             check_list_form(ctx, (policy, enf), ctx.rnd)
+        if i % 10 == 0:
+            check_case_keys(ctx, (policy, enf), ctx.rnd)
     ctx.stratum('random', exhaustive=False)
+    ctx.release()
     # overlapping evaluations last: the line-level scheduler slows everything that runs after it is installed
     from pv.mon import sched
     try:
@@ -326,4 +456,14 @@ def replay(ctx, case):
     enf = policy.Enforcer(env.fresh_conf(), use_conf=False)
     if case.get('sequence'):
         return replay_sequence(ctx, (policy, enf), case)
+    if case.get('case_keys'):
+        return run_case_keys(ctx, (policy, enf), case)
+    if case.get('overlap'):
+        from pv.mon import sched
+        try:
+            return check_overlap(ctx, (policy, enf), None, fixed=case)
+        finally:
+            sched.uninstall()
+    if case.get('list_form'):
+        return check_list_form(ctx, (policy, enf), None, fixed=case)
     check_case(ctx, (policy, enf), case)
